@@ -19,3 +19,11 @@ func VerifTranslateSetRetryInterval(s *TranslateFile, d time.Duration) {
 
 // VerifAttrBlocksDiff is attrBlocks(a).Diff(b).
 func VerifAttrBlocksDiff(a, b []AttrBlock) []uint64 { return attrBlocks(a).Diff(b) }
+
+// VerifTranslatePrimaryID returns the id of the primary the store was last
+// assigned ("" = none), taken under the store's read lock.
+func VerifTranslatePrimaryID(s *TranslateFile) string {
+	s.mu.RLock()
+	defer s.mu.RUnlock()
+	return s.primaryID
+}
